@@ -326,16 +326,33 @@ def run_cases(exe, cases, timeout=1200, env_extra=None, chunk=20000):
     return outs
 
 
-def run_driver(drv, cases, timeout=1200):
-    rc, out = None, None
+def _run_driver_1(drv, cases, timeout):
     p = subprocess.run([drv], input=("\n".join(cases) + "\n").encode(), stdout=subprocess.PIPE,
                        stderr=subprocess.PIPE, timeout=timeout)
     lines = p.stdout.decode("utf8", "replace").split("\n")
     if lines and lines[-1] == "":
         lines = lines[:-1]
     if p.returncode != 0 or len(lines) != len(cases):
+        lines = lines[:len(cases)]
         lines += ["model-crash rc=%s %s" % (p.returncode, p.stderr.decode("utf8", "replace")[-200:].replace("\n", " "))] * (len(cases) - len(lines))
     return lines
+
+
+def run_driver(drv, cases, timeout=2400):
+    """the extracted model on the case lines; large runs are split over the cores (the cases are independent)"""
+    n = len(cases)
+    if n < 4000:
+        return _run_driver_1(drv, cases, timeout)
+    import concurrent.futures
+    k = min(NPROC, 12)
+    # interleave so that expensive families are spread over the workers
+    parts = [cases[i::k] for i in range(k)]
+    with concurrent.futures.ThreadPoolExecutor(max_workers=k) as ex:
+        outs = list(ex.map(lambda part: _run_driver_1(drv, part, timeout), parts))
+    res = [None] * n
+    for i in range(k):
+        res[i::k] = outs[i]
+    return res
 
 
 # ------------------------------------------------------------------ known findings
